@@ -38,7 +38,7 @@ pub fn draw_scale(rng: &mut Rng) -> f64 {
     }
 }
 
-pub const FULLRANK_KINDS: [&str; 9] = ["dense", "graded", "integer", "diagonal", "triangular", "permutation", "orthogonal", "lowrank+ridge", "zeros-inside"];
+pub const FULLRANK_KINDS: [&str; 10] = ["dense", "graded", "integer", "diagonal", "triangular", "permutation", "orthogonal", "lowrank+ridge", "zeros-inside", "spread-magnitudes"];
 
 /// m×n matrix of full rank min(m,n) of the given structural kind. The condition number is *not*
 /// guaranteed here except for "graded", "orthogonal", "permutation"; callers measure it.
@@ -59,6 +59,19 @@ pub fn fullrank(rng: &mut Rng, m: usize, n: usize, kind: &str, maxcond: f64) -> 
             with_singular_values(rng, m, n, &s)
         }
         "integer" => Mat::from_fn(m, n, |_, _| rng.int(-9, 9) as f64),
+        "spread-magnitudes" => {
+            // ordinary dense matrix in which a quarter of the entries are smaller by 3..8 orders of magnitude
+            // (small or tiny diagonal candidates with small or large alternatives below them: the pivot
+            // search has to find the largest entry, not just a larger one)
+            Mat::from_fn(m, n, |_, _| {
+                let v = rng.normal() + if rng.bool(0.5) { 1.0 } else { -1.0 };
+                if rng.bool(0.25) {
+                    v * 10f64.powf(-rng.uni(3.0, 8.0))
+                } else {
+                    v
+                }
+            })
+        }
         "diagonal" => {
             let lim = maxcond.sqrt().min(1e3);
             Mat::from_fn(m, n, |i, j| {
